@@ -104,12 +104,14 @@ KINDS_BY_PARENT = {
     "init": ("parameters", "other parameters", "raises", "warns", "examples", "admonition", "text", "parameters"),
     "class": ("attributes", "functions", "classes", "parameters", "examples", "admonition", "text", "attributes"),
     "module": ("attributes", "functions", "classes", "modules", "examples", "admonition", "text", "attributes"),
-    "property": ("raises", "warns", "examples", "admonition", "text"),
+    # a property's "signature" is its getter's return annotation: Returns / Yields items take their types from it
+    # (Receives is left out: a generator-typed property that is sent values is not a documented use)
+    "property": ("returns", "yields", "raises", "warns", "examples", "admonition", "text", "returns", "returns"),
     "none": ("parameters", "other parameters", "attributes", "returns", "yields", "receives", "raises", "warns", "functions", "classes",
              "modules", "examples", "admonition", "text"),  # fmt: skip
 }
 SPHINX_KINDS = ("parameters", "attributes", "returns", "raises")
-PARENTS = ("function", "function", "function", "function", "class", "module", "init", "none", "property", "function")
+PARENTS = ("function", "function", "function", "function", "class", "module", "init", "none", "property", "function", "property")
 
 
 # ----------------------------------------------------------------------------------------------- decoder
@@ -122,10 +124,15 @@ class _Tok:
         return f"q{self.n}z"
 
 
+ROLES = (":class:`Foo`", ":func:`mod.bar`", ":data:`DEFAULT_RETRY`", ":emphasis:`really`", ":py:meth:`Baz.run`", ":ref:`a label <lbl>`")
+
+
 def _line(src: Src, tok: _Tok, colon_ok: bool) -> str:
     words = " ".join(src.pick(WORDS) for _ in range(1 + src.below(3)))
     tail = src.pick(COLON_TAILS) if (colon_ok and src.below(6) == 0) else src.pick(TAILS)
-    return f"{words} {tok.next()}{tail}"
+    # a line may begin with an inline role (ordinary in Sphinx/RST prose, harmless markup in the other styles)
+    lead = (src.pick(ROLES) + " ") if (colon_ok and src.below(5) == 0) else ""
+    return f"{lead}{words} {tok.next()}{tail}"
 
 
 def _desc(src: Src, tok: _Tok, multi: bool = True, first_colon: bool = False) -> list[str]:
@@ -187,10 +194,11 @@ def decode(data: bytes, known: frozenset = frozenset()) -> dict:
         "iterator": bool(src.below(2)),
         "margin": src.pick((0, 0, 0, 4, 8)),
         "indent": src.pick((4, 4, 4, 2)),
+        "inherit": bool(src.below(2)),  # class parents: the documented attributes are declared in a base class
     }
     allowed = SPHINX_KINDS if style == "sphinx" else KINDS_BY_PARENT[parent]
     if style == "sphinx" and parent == "property":
-        allowed = ("raises",)
+        allowed = ("raises", "returns", "returns")
     sections: list = []
     steered: set = set()
     used_kinds: set = set()
@@ -304,6 +312,9 @@ def decode(data: bytes, known: frozenset = frozenset()) -> dict:
 def _wellform(case: dict) -> None:
     """Make the structure fit the documented syntax of the chosen style/options (done on the model, so replays see it)."""
     style, opts = case["style"], case["opts"]
+    if case["parent"] == "property" and any(sec["kind"] == "returns" for sec in case["sections"]):
+        for sec in case["sections"]:
+            sec.pop("rtype", None)  # `type: summary` on the first line and a Returns section would document the value twice
     for sec in case["sections"]:
         kind = sec["kind"]
         if style == "google" and kind in ("returns", "yields", "receives"):
@@ -330,7 +341,7 @@ def _wellform(case: dict) -> None:
 
 # ----------------------------------------------------------------------------------------------- parent
 def return_annotation(case: dict) -> str | None:
-    if not case.get("retsig") or case["parent"] != "function":
+    if not case.get("retsig") or case["parent"] not in ("function", "property"):
         return None
     comp = {}
     for sec in case["sections"]:
@@ -382,11 +393,17 @@ def parent_source(case: dict) -> tuple[str, str] | None:
         return head + "\n".join(attrs) + "\n", ""
     body = "".join(f"    {a}\n" for a in attrs)
     if kind == "class":
-        return head + f"class Klass:\n{body}    def __init__(self{', ' + params if params else ''}): ...\n", "Klass"
+        init = f"    def __init__(self{', ' + params if params else ''}): ...\n"
+        if case.get("inherit") and attrs:
+            return head + f"class Base:\n{body}\n\nclass Klass(Base):\n{init}", "Klass"
+        return head + f"class Klass:\n{body}{init}", "Klass"
     if kind == "init":
         return head + f"class Klass:\n    def __init__(self{', ' + params if params else ''}): ...\n", "Klass.__init__"
     if kind == "property":
-        return head + "class Klass:\n    @property\n    def prop(self) -> int: ...\n", "Klass.prop"
+        ret = return_annotation(case)
+        if ret is None and not any(sec["kind"] in ("returns", "yields", "receives") for sec in case["sections"]):
+            ret = "int"
+        return head + f"class Klass:\n    @property\n    def prop(self){' -> ' + ret if ret else ''}: ...\n", "Klass.prop"
     raise ValueError(kind)
 
 
@@ -523,7 +540,11 @@ def render_sphinx(case: dict) -> str:
             cont = ["    " + ln for ln in it["desc"][1:]]
             if kind == "parameters":
                 tline = [f":type {it['name']}: {it['ann']}"] if it["ann"] else []
-                pline = [f":{SPHINX_PARAM[field % len(SPHINX_PARAM)]} {it['name']}: {it['desc'][0]}", *cont]
+                pname = it["name"]
+                if it["ann"] and " " not in it["ann"] and it.get("v", 0) & 2:
+                    # in-line type (Sphinx info field lists: `:param type name: description`), only for types without blanks
+                    tline, pname = [], f"{it['ann']} {it['name']}"
+                pline = [f":{SPHINX_PARAM[field % len(SPHINX_PARAM)]} {pname}: {it['desc'][0]}", *cont]
                 out += (tline + pline) if it.get("v", 0) & 1 else (pline + tline)
             elif kind == "attributes":
                 tline = [f":vartype {it['name']}: {it['ann']}"] if it["ann"] else []
